@@ -168,7 +168,9 @@ def run(tier):
                 k = len([e for e in evs[:evs.index(bad)] if e["e"] == "histbegin"]) - 1
                 cand = [l for l in lines if l.startswith("HIST ")]
                 srcline = cand[k] if 0 <= k < len(cand) else ""
-            rp = ck.replay_path("dict-%d-%d.json" % (bi, pos), {"property": PID, "dictionaries": dicts, "script_line": srcline, "history": ctx, "event": bad})
+            batch = ck.replay_path("dict-%d-%d.batch.script" % (bi, pos), "\n".join(lines) + "\n")      # the whole batch: reproduces the process state as well
+            diag = [e for e in evs[max(0, evs.index(bad) - 1):evs.index(bad)] if e.get("e") == "rtdiag"] if bad in evs else []
+            rp = ck.replay_path("dict-%d-%d.json" % (bi, pos), {"property": PID, "dictionaries": dicts, "script_line": srcline, "batch_script": batch, "diagnosis": diag, "history": ctx, "event": bad})
             ck.violation("DictTrace rejected %s (dictionaries: %s)" % (json.dumps(bad)[:300], " ; ".join(d[:90] for d in dicts)), rp, ident=ident)
             # skip this event (and, inside a history, the rest of the history)
             nxt = pos + 1
